@@ -69,6 +69,27 @@ def programs(tier):
                     continue
                 seen.add(key)
                 progs.append(Program(text, srcs, ordered=ordered and node.ordered, family="F04", note="/".join(node.ops) + "/" + tag, env_globals={"dx": dx}))
+        # operator forms whose projection rule has to treat the operands / options consistently
+        srcM = Src("M", nrows, LCOLS, nparts + 1)
+        M = root("M", LCOLS, nparts + 1)
+        extra_nodes = [
+            (_n(L, "(L + M)", "binop-unaligned", ordered=False), [srcL, srcM]), (_n(L, "(L * M[['a', 'b', 'c', 'd']])", "binop-unaligned", ordered=False), [srcL, srcM]),
+            (_n(L, "L.add(M)", "method-binop-unaligned", ordered=False), [srcL, srcM]), (_n(L, "L.add(1)", "method-binop-scalar"), [srcL]), (_n(L, "L.sub(L)", "method-binop-self"), [srcL]),
+            (_n(L, "L.mul(2)", "method-binop-scalar"), [srcL]), (_n(L, "L.rsub(1)", "method-binop-scalar"), [srcL]),
+            (_n(L, "L.fillna({'b': 0})", "fillna-dict"), [srcL]), (_n(L, "L.fillna({'b': 0, 'a': 1})", "fillna-dict"), [srcL]),
+            (_n(L, "L.isin({'a': [1, 2]})", "isin-dict", cols=tuple((c, "b") for c, _ in L.cols)), [srcL]), (_n(L, "L.isin([1, 2])", "isin-list", cols=tuple((c, "b") for c, _ in L.cols)), [srcL]),
+            (_n(L, "L.groupby('a')[['b', 'c']].sum()", "groupby-list", cols=(("b", "f"), ("c", "i")), ordered=False), [srcL]),
+            (_n(L, "L.groupby('a')[['c', 'd']].max()", "groupby-list", cols=(("c", "i"), ("d", "i")), ordered=False), [srcL]),
+            (_n(L, "L.merge(R, left_on='a', right_on='e')", "merge-lr-on", cols=(("a_x", "i"), ("b_x", "f"), ("c", "i"), ("d", "i"), ("a_y", "i"), ("b_y", "f"), ("e", "i")), ordered=False), [srcL, srcR]),
+            (_n(L, "L.merge(R, left_on='c', right_on='a')", "merge-lr-on", cols=(("a_x", "i"), ("b_x", "f"), ("c", "i"), ("d", "i"), ("a_y", "i"), ("b_y", "f"), ("e", "i")), ordered=False), [srcL, srcR]),
+        ]
+        for node, nsrcs in extra_nodes:
+            for text, tag, ordered in _selections(node):
+                if tag.startswith("key-") and tag != "key-groupby":
+                    continue
+                progs.append(Program(text, nsrcs, ordered=ordered and node.ordered, family="F04", note="forms/" + "/".join(node.ops) + "/" + tag, env_globals={"dx": dx}))
+        for text in ("L.fillna({'b': 0})['b']", "L.fillna({'b': 0}).b.sum()", "L.fillna({'b': 0, 'a': 1})[['b']]", "L.isin({'a': [1, 2], 'c': [0]})['c']", "L.isin({'a': [1, 2]})[['a']]"):
+            progs.append(Program(text, [srcL], ordered=True, family="F04", note="forms/mapping-argument", env_globals={"dx": dx}))
         # a suffix of None: the plain name of a shared non-key column belongs to that side only
         for suf in (("_l", None), (None, "_r"), ("_l", ""), ("", "_r")):
             for how in ("inner", "left"):
